@@ -54,6 +54,18 @@ CLAIMED = {
          "Machine-checked proof for all schedules and caller scripts of the model; co-simulation of every scheduler step with the real code on every run.",
          "Trusted: Lean kernel; detsched; atomic steps between synchronisation calls; camera kind Empty (rendering trivial), simcam_set never fails; fairness for the termination conclusions; the set(off) race (streamer may sleep with the trigger disabled) is outside C18's statement and proved reachable.",
          "DESIGN.md section 5, C18"),
+ "C07": ("lean-runtime", "Lean 4 theorems over M1 (guarded-command model of source/filter/sink/client threads over the channel model): thread-flag-device invariant TInv proved for every action of every thread and lifted to every state of every schedule (micro-steps included): when acquire_stop/abort returns the runtime is Armed, all workers have finished, flags clear, devices stopped; joins and thread creation ordered; tie: decision-by-decision co-simulation of the real acquire.c/source.c/filter.c/sink.c/channel.c/HAL on detsched with a mock driver against the compiled model, plus HANG/DEADLOCK and device/storage oracles on abort scenarios outside M1 (triggers, averaging)",
+         "Safety half machine-checked for all client programs, faults and schedules of the model; 'returns after finitely many steps' is decided on the implementation by the deterministic scheduler's hang oracle over the explored schedules (partial: liveness needs fairness).",
+         "Trusted: Lean kernel; detsched; mock driver contract; M1's granularity (a step = code between two synchronisation calls, checked by co-simulation of every decision); ring capacity overridden by a wrapper TU; fairness for every 'returns'. Known finding: stalled monitor (known_findings.json).",
+         "DESIGN.md section 5, C07"),
+ "C08": ("lean-runtime", "Lean 4 theorems over M1: driver starts/stops of a camera pair up in every reachable state whoever stops it, start only on an Armed camera, get_frame/stop only on a Running one, Running devices belong to live workers, acquire_get_state says Running only while a worker of a valid stream is alive, unconfigured streams never get workers, start while Running is refused without touching the acquisition; tie: co-simulation as for C07 + recording mock driver with life-cycle oracles (open/close/start/stop/use-after-close/double close) over API programs generated from the usage grammar incl. device switches, re-configuration, start while running and shutdown",
+         "Machine-checked for the data-path life cycle (start/stop/use, flags, reported state) for all programs and schedules of M1; open/close on identifier change and shutdown are decided by the implementation-side oracles only (partial).",
+         "Trusted: as C07; per-stream device pools are disjoint in generated programs; C11's proved HAL automaton for a single device.",
+         "DESIGN.md section 5, C08"),
+ "C09": ("lean-runtime", "Lean 4 theorems over M1 with a scripted fault per device (any call index, persistent or not): no append after a failed append, no get_frame after a failed get_frame (ghost counters are 0 in every reachable state), failed storage not Running, failed camera stopped by exactly one driver stop, runtime not Running once workers exited, everything at rest when stop/abort/failed start has returned; tie: co-simulation of the real runtime with the mock driver's fault injection against the compiled model (faults at call 0..3, storage and camera, stop/abort/wait, with and without re-configuration incl. the failed-start path), oracles for later fault-free acquisitions",
+         "Machine-checked for all fault indices, programs and schedules of the model (safety); 'stop and abort still return' by the hang oracle over explored schedules (partial: liveness needs fairness).",
+         "Trusted: as C07; faults are scripted for the first run of a device.",
+         "DESIGN.md section 5, C09"),
 }
 PLANNED = {}
 ALL = ["C%02d" % i for i in range(1, 19)]
@@ -97,6 +109,7 @@ def main():
             {"name": "lean-tiff", "path": "lean/AcqVerif/Tiff", "serves_properties": ["C15"], "kind_free_text": "BigTIFF writer model, independent reader, JSON description scanner; harness harness/tiff"},
             {"name": "lean-simcam", "path": "lean/AcqVerif/Simcam", "serves_properties": ["C17"], "kind_free_text": "simulated camera configuration/buffer-extent model; harness harness/simcam_shape"},
             {"name": "lean-simconc", "path": "lean/AcqVerif/SimConc", "serves_properties": ["C18"], "kind_free_text": "simulated camera thread-protocol model; harness harness/simcam_conc on detsched"},
+            {"name": "lean-runtime", "path": "lean/AcqVerif/Runtime", "serves_properties": ["C04", "C06", "C07", "C08", "C09", "C10"], "kind_free_text": "M1: guarded-command model of the source/filter/sink/client threads over the channel model, HAL device states, scripted faults (Model, Client, Init); invariants per action family (Inv, TInv/*, Cam/*, Clean); driver lean/Driver/RuntimeMain.lean; harness harness/runtime (real runtime on detsched + mock driver); engine checks/rtx.py"},
             {"name": "lean-sprops", "path": "lean/AcqVerif/SProps", "serves_properties": ["C13"], "kind_free_text": "StorageProperties heap model; harness harness/props"},
         ],
         "checks": checks,
